@@ -18,6 +18,7 @@ import (
 	"crypto/sha3"
 	"fmt"
 	"os"
+	"runtime/debug"
 	"strings"
 	"time"
 
@@ -60,6 +61,7 @@ func (h *harness) ask(line string) string {
 }
 
 var nMism = map[string]int{}
+var lastPanic string
 var tImpl, tModel, tSigma, tProve time.Duration
 
 func (h *harness) corr(key, cs, detail string, propfail bool, what string) {
@@ -171,10 +173,29 @@ func implVerdict(c *niCase, comp compiler.Name, cs ctxSpec, which int, proof []b
 		return "S" // context not constructible (sid-only without the field): skipped
 	}
 	var verr error
-	if p := vh.Safely(func() { verr = c.verify(comp, ctx, which, proof) }); p != "" {
+	if p := safelyStack(func() { verr = c.verify(comp, ctx, which, proof) }); p != "" {
+		lastPanic = p
 		return "P"
 	}
 	return b2i(verr == nil)
+}
+
+// safelyStack is vh.Safely plus the innermost library frames of the panic (for the report)
+func safelyStack(f func()) (msg string) {
+	defer func() {
+		if r := recover(); r != nil {
+			msg = fmt.Sprint(r)
+			var frames []string
+			for _, l := range strings.Split(string(debug.Stack()), "\n") {
+				if strings.Contains(l, "/pkg/") && strings.Contains(l, ".go:") && len(frames) < 4 {
+					frames = append(frames, strings.TrimSpace(l))
+				}
+			}
+			msg += " @ " + strings.Join(frames, " <- ")
+		}
+	}()
+	f()
+	return ""
 }
 
 func caseText(c *niCase, comp compiler.Name, variant int, cs ctxSpec, which int, proof []byte) string {
@@ -221,7 +242,7 @@ func (h *harness) checkOneKey(class, fixedKey string, c *niCase, comp compiler.N
 		if i := strings.Index(pkg, "/"); i > 0 {
 			pkg = pkg[:i]
 		}
-		h.prop(pkg+"-verify-panic", ct, "compiled verifier panicked ("+class+", "+decClass+")", "verifiers never accept or crash on malformed proofs")
+		h.prop(pkg+"-verify-panic", ct, "compiled verifier panicked ("+class+", "+decClass+"): "+trunc(lastPanic, 300), "verifiers never accept or crash on malformed proofs")
 		return
 	}
 	propfail := expect != "?" && got != expect
